@@ -102,13 +102,18 @@ Section Pts.
       cbn [res_pts fst snd]. split; [exact I | basics].
     - intros [params params_span] _ [Hps Hsp]. cbn [fst snd] in *.
       bindp (all_opt (typ_pts P)); [destruct (children_of node); [apply return_type_loop_pts | exact I]|].
+      assert (Hbody : forall b, res_pts (expr_pts P)
+                (if kind_is sk_BlockExpr b
+                 then let* stmts := lower_block_statements K b in
+                      Ok (match into_then_expr stmts with Some e => e | None => error_without_span end)
+                 else k_expr K b)).
+      { intros b. destruct (kind_is sk_BlockExpr b); [|apply HE].
+        bindp (all_list (stmt_loc_pts P)); [apply (lower_block_statements_pts P K HK)|].
+        cbn [res_pts]. pose proof (into_then_expr_pts P _ H2) as Hi.
+        destruct (into_then_expr a0); [exact Hi | apply error_without_span_pts; exact HP0]. }
       repeat pstep; try exact I;
-        (bindp (expr_pts P);
-         [ first [ apply HE
-                 | (bindp (all_list (stmt_loc_pts P)); [apply (lower_block_statements_pts P K HK)|];
-                    cbn [res_pts]; pose proof (into_then_expr_pts P a0 H2) as Hi;
-                    destruct (into_then_expr a0); [exact Hi | apply error_without_span_pts; exact HP0]) ]
-         | cbn [res_pts opt_pstmt_pts all_opt pstmt_pts]; repeat split; try assumption; apply location_pts; assumption ]).
+        (bindp (expr_pts P); [apply Hbody|];
+         cbn [res_pts opt_pstmt_pts all_opt pstmt_pts]; repeat split; try assumption; apply location_pts; assumption).
   Qed.
 
   Lemma lower_letrec_decl_pts : forall node, res_pts opt_pstmt_pts (lower_letrec_decl toks K node).
@@ -138,6 +143,10 @@ Section Pts.
            [first [apply lower_function_decl_pts | apply lower_let_decl_pts | apply lower_letrec_decl_pts
                   | apply lower_module_decl_pts | apply lower_type_decl_pts]
            | intros o _ Ho; apply or_error_pts; exact Ho]).
+    - cbn [res_pts]. unfold lower_include. destruct (find_token toks id tk_Str); [|exact I]. destruct (token_text toks n); exact I.
+    - cbn [res_pts]. unfold lower_stage_decl. destruct (find_token toks id tk_Main_or_Macro); [|exact I]. destruct (toks n); exact I.
+    - cbn [res_pts]. unfold lower_use_stmt. destruct (find_child id sk_QualifiedPath); [|exact I].
+      destruct (lower_use_path toks t) as [[path target]|]; exact I.
   Qed.
 
   (* ---- lower_program ---- *)
@@ -179,7 +188,7 @@ Section Pts.
   Qed.
 End Pts.
 
-Lemma lw_pts : forall P, P 0%N -> forall toks, (forall i tk, toks i = Some tk -> P (t_start tk) /\ P (t_end tk)) ->
+Lemma lw_pts : forall (P : N -> Prop), P 0%N -> forall toks : nat -> option tokinfo, (forall i tk, toks i = Some tk -> P (t_start tk) /\ P (t_end tk)) ->
   forall f, pts_knot P (lw toks f).
 Proof.
   intros P HP0 toks Htoks f. induction f as [|f IH].
